@@ -101,7 +101,7 @@ structure Ctx where
   followSnap : Bool := false
   spy : Bool := false
   faultRun : Bool := false
-  pending : List (Nat × FaultKind) := []
+  pending : List (Nat × FaultKind × Option (String × Nat)) := []
   conc : Option CSt' := none
   progs : List (ReqM Response) := []
   lateBegin : List Nat := []
@@ -122,7 +122,7 @@ def faultFn (fs : List (Nat × FaultKind)) : Nat → FaultKind := fun n =>
   match fs.find? (·.1 = n) with | some (_, k) => k | none => .ok
 
 /-- run a request under the pending faults (SQLite transaction semantics); returns also how many faults were hit -/
-def runReqF {α} (st : St) (fs : List (Nat × FaultKind)) (p : ReqM α) : α × St × Nat :=
+def runReqF' {α} (st : St) (fs : List (Nat × FaultKind)) (p : ReqM α) : α × St × Nat :=
   match st with
   | .sql s =>
     let (o, s', n) := p.runF SqlB (faultFn fs) 0 s
@@ -131,13 +131,53 @@ def runReqF {α} (st : St) (fs : List (Nat × FaultKind)) (p : ReqM α) : α × 
     let (o, m', n) := p.runF MemB (faultFn fs) 0 m
     (o, .mem m', (fs.filter (·.1 < n)).length)
 
-def parseFaults : List String → List (Nat × FaultKind)
+/-- `fault <index> before|after [<call>#<occurrence>] …`: the call the implementation's fault hit is identified by its
+    name and occurrence within the request when the harness says so (then a rewrite of the implementation that adds,
+    drops or reorders *reads* does not shift the fault to another call of the model), else by its index -/
+partial def parseFaults : List String → List (Nat × FaultKind × Option (String × Nat))
   | i :: k :: rest =>
+    let (ident, rest') : Option (String × Nat) × List String :=
+      match rest with
+      | w :: more =>
+        match w.splitOn "#" with
+        | [name, occ] => (match occ.toNat? with | some o => (some (name, o), more) | none => (none, rest))
+        | _ => (none, rest)
+      | [] => (none, rest)
     match i.toNat?, k with
-    | some n, "before" => (n, .failBefore) :: parseFaults rest
-    | some n, "after" => (n, .failAfter) :: parseFaults rest
-    | _, _ => parseFaults rest
+    | some n, "before" => (n, .failBefore, ident) :: parseFaults rest'
+    | some n, "after" => (n, .failAfter, ident) :: parseFaults rest'
+    | _, _ => parseFaults rest'
   | _ => []
+
+/-- names of the calls of a transaction body in its fault-free run (for locating a fault by call identity) -/
+def txnNames {σ α} (B : Backend σ) (cl : Uuid) : TxnM α → TxnSt σ → List String → List String × Option α × TxnSt σ
+  | .ret a, st, acc => (acc, some a, st)
+  | .call c k, st, acc =>
+    match stepCallF B cl .ok c st with
+    | .abort st' => (acc ++ [c.name], none, st')
+    | .cont r st' => txnNames B cl (k r) st' (acc ++ [c.name])
+
+def reqNames {σ α} (B : Backend σ) : ReqM α → σ → List String → List String
+  | .done _, _, acc => acc
+  | .txn cl body k, s, acc =>
+    let r := txnNames B cl body ⟨s, s, false⟩ (acc ++ ["begin"])
+    reqNames B (k r.2.1) r.2.2.durable r.1
+
+/-- index of the `occ`-th (1-based) occurrence of `name` -/
+def nthIndex (names : List String) (name : String) (occ : Nat) : Option Nat :=
+  let idxs := (names.zipIdx.filter (·.1 = name)).map (·.2)
+  if occ = 0 then none else idxs[occ - 1]?
+
+def locateFaults (names : List String) (fs : List (Nat × FaultKind × Option (String × Nat))) : List (Nat × FaultKind) :=
+  fs.map fun (i, k, ident) =>
+    match ident with
+    | none => (i, k)
+    | some (name, occ) => match nthIndex names name occ with | some j => (j, k) | none => (1000000, k)
+
+/-- run a request under the pending faults; returns also how many faults were hit -/
+def runReqF {α} (st : St) (fs : List (Nat × FaultKind × Option (String × Nat))) (p : ReqM α) : α × St × Nat :=
+  let names := match st with | .sql s => reqNames SqlB p s [] | .mem m => reqNames MemB p m []
+  runReqF' st (locateFaults names fs) p
 
 def execCall (st : St) (cl : Uuid) (c : Call) : Except StorageErr c.Resp :=
   match st with
@@ -333,6 +373,15 @@ def step (ctx : Ctx) (lhs : String) (implObs : String := "") : Ctx × String :=
       let d := concThreadDesc c t
       let fin (c' : CSt') (msg : String) (late : List Nat := ctx.lateBegin) : Ctx × String :=
         ({ ctx with conc := some c', st := concDb c', lateBegin := late }, msg)
+      -- Reads inside an open transaction are not part of what the trace comparison pins (they change nothing, in the model
+      -- by `readsPure_*`): a read of the implementation that is not the model thread's next call is accepted without a
+      -- step, and the model thread's outstanding reads are run just before its next write / end. What IS compared: the
+      -- transaction boundaries, every write and their order, who holds the lock, and (line `res`) the responses.
+      let isRead (l : String) : Bool := l = "call:get_client" || l = "call:get_version_by_parent" || l = "call:get_version" || l = "call:get_snapshot_data"
+      let rec skipReads (c : CSt') (fuel : Nat) : CSt' :=
+        match fuel with
+        | 0 => c
+        | fuel + 1 => if isRead (concThreadDesc c t) then (match concStep c t with | some c' => skipReads c' fuel | none => c) else c
       let stepOr (expect : String) : Ctx × String :=
         if d = expect then
           match concStep c t with
@@ -357,12 +406,26 @@ def step (ctx : Ctx) (lhs : String) (implObs : String := "") : Ctx × String :=
         if ctx.lateBegin.contains t then fin c "ok" else fin c "mismatch:implementation-blocked-but-model-lock-was-free"
       | "begin-failed" => fin c "mismatch:begin-failed"
       | "end" =>
+        let c := skipReads c 64
+        let d := concThreadDesc c t
         if d = "at-end" then (match concStep c t with | some c' => fin c' "ok" | none => fin c "mismatch:cannot-end")
         else if d = "want-begin" || d = "done" then fin c "ok"      -- already released by a failed call
         else fin c s!"mismatch:model-thread-is-{d}"
       | "finish" => stepOr "done"
       | l =>
-        if l.startsWith "call:" then stepOr l else fin c "bad-op"
+        if !l.startsWith "call:" then fin c "bad-op"
+        else if isRead l then
+          if d = l then stepOr l
+          else if d.startsWith "call:" || d = "at-end" then fin c "ok"      -- inside a transaction: tolerated, no step
+          else fin c s!"mismatch:read-outside-a-transaction:model-thread-is-{d}"
+        else
+          let c := skipReads c 64
+          let d := concThreadDesc c t
+          if d = l then
+            match concStep c t with
+            | some c' => fin c' "ok"
+            | none => fin c s!"mismatch:model-cannot-step-from-{d}"
+          else fin c s!"mismatch:model-thread-is-{d}"
   | ["res", t] =>
     match t.toNat?, ctx.conc with
     | some t, some c => (ctx, match concResp c t with | some r => showResp r | none => s!"no-response:{concThreadDesc c t}")
@@ -388,6 +451,7 @@ def step (ctx : Ctx) (lhs : String) (implObs : String := "") : Ctx × String :=
   | "pool" :: _ => (ctx, "")
   | ["restart"] => (ctx, "ok")
   | ["dircheck"] => (ctx, "ok")
+  | "xhttp" :: _ => (ctx, "")
   | "open" :: _ => (ctx, "")
   | "nowalk" :: _ => (ctx, "empty")
   | "expect" :: _ => (ctx, "")
